@@ -346,7 +346,7 @@ def gen(rs: int, index: int, tier: str) -> Dict[str, Any]:
         allf.append(f)
     re_ = S.rng("entries")
     entries = [{"ep": "direct", "kind": re_.choice(["passive", "passive", "active", "vpassive", "vactive"]),
-                "dt": re_.choice(["bytes", "bytearray", "message"]),
+                "dt": re_.choice(["bytes", "bytearray", "message", "reused"]),
                 "consume": re_.choice(["all", "all", "first"])}]
     extra = re_.choice(["text", "bus", "both", "none"])
     if extra in ("text", "both"):
